@@ -2,7 +2,7 @@
    Specification: Trace/Doc.v (doc_schema: the mapping of lib.rs and of every option's doc comment,
    by recursion on a description of the type). Models: Trace/Tracer.v (from_samples, to_field,
    overwrites). from_type of the crate is compared with doc_schema inside Coq on every case. *)
-From Verif Require Import Tracer Doc CoerceTable CoerceTable_proofs TracerTablesSpec.
+From Verif Require Import Tracer Doc CoerceTable CoerceTable_proofs TracerTablesSpec FromType FromType_proofs.
 Local Open Scope nat_scope.
 
 (* Full-strength statements (kept visible); judged per case by RunC08.oracle / corr *)
@@ -86,7 +86,52 @@ Theorem C08_leaf_calls_match_model :
                           let '(_, _, v, p) := r in trace o d v t = ensure_prim o p t) leaf_methods.
 Proof. exact leaf_calls_match_model. Qed.
 
+(* ---- from_type = the documented mapping, for every type description ----
+   from_type is modelled as the loop of the source (Trace/FromType.v): T::deserialize is handed the tracer until it
+   is complete or the budget is used up; each pass visits everything below a position but exactly one variant of
+   an enum (the first whose tracer is not complete).  For every description of a type (any nesting of options,
+   newtypes, sequences, tuples, maps, structs and enums with unit / newtype / tuple / struct variants) inside the
+   side conditions `ok` - nesting below the depth limit, maps only when they are not traced as structs, enums with
+   1..128 variants, no newtype variant whose payload is unit-like (the known finding recorded under C06) - and for
+   every option set: the exploration terminates within `passes ty` iterations (sum over the variants of an enum,
+   maximum over everything else) with the fully explored tracer, and its schema is doc_schema, success and
+   failure alike (a unit field without allow_null_fields, an enum without data, a root that is not a struct). *)
+Theorem C08_from_type_is_documented : forall o ty budget,
+  ok o 0 ty = true -> passes ty <= budget -> from_type o [] budget ty = doc_schema o ty.
+Proof. exact from_type_is_doc. Qed.
+
+Theorem C08_from_type_converges : forall o ty budget,
+  ok o 0 ty = true -> passes ty <= budget -> ft_loop o budget ty (TUnknown false) = Ok (full o false ty).
+Proof. exact ft_converges. Qed.
+
+(* every pass keeps the tracer an approximation of the type and strictly reduces the passes still needed *)
+Theorem C08_from_type_pass : forall o ty n dots t, ok o dots ty = true -> appr o n ty t ->
+  exists t', ft_pass o dots ty t = Ok t' /\ shaped o n ty t' /\ rem ty t' <= pred (rem ty t).
+Proof. exact pass_ok. Qed.
+
+Definition c08_ty : Ty :=
+  TyStruct [(b "a", TyOption (TySeq TyBool));
+            (b "e", TyEnum [(b "A", PUnit); (b "B", PNewtype (TyInt I32)); (b "C", PStruct [(b "x", TyString); (b "y", TyTuple [TyF64; TyChar])])]);
+            (b "m", TyNewtype (TyOption (TyEnum [(b "P", PTuple [TyInt U8; TyBytes]); (b "Q", PUnit)])))].
+(* non-vacuity: the side conditions hold, three passes are needed and suffice, two do not *)
+Example C08_from_type_example :
+  let o := {| o_allow_null := true; o_map_as_struct := true; o_large_list := true; o_large_utf8 := true;
+              o_dict := false; o_coerce := false; o_to_string := false; o_guess_dates := false; o_enums_str := false |} in
+  ok o 0 c08_ty = true /\ passes c08_ty = 3 /\
+  from_type o [] 3 c08_ty = doc_schema o c08_ty /\ (exists fs, doc_schema o c08_ty = Ok fs /\ length fs = 3) /\
+  from_type o [] 2 c08_ty = Err.
+Proof. vm_compute. repeat split; try reflexivity. eexists. split; reflexivity. Qed.
+(* the excluded class: a newtype variant with a unit-like payload next to unit variants is traced as "without data" *)
+Example C08_unit_payload_needs_exclusion :
+  let o := {| o_allow_null := true; o_map_as_struct := true; o_large_list := true; o_large_utf8 := true;
+              o_dict := false; o_coerce := false; o_to_string := false; o_guess_dates := false; o_enums_str := true |} in
+  let ty := TyStruct [(b "e", TyEnum [(b "A", PUnit); (b "B", PNewtype TyUnit)])] in
+  ok o 0 ty = false /\ from_type o [] 100 ty <> doc_schema o ty.
+Proof. vm_compute. split; [reflexivity|discriminate]. Qed.
+
 Print Assumptions C08_leaf_tracers_agree.
 Print Assumptions C08_overwrite_replaces.
 Print Assumptions C08_coerce_arms_match_model.
 Print Assumptions C08_leaf_calls_match_model.
+Print Assumptions C08_from_type_is_documented.
+Print Assumptions C08_from_type_pass.
